@@ -720,13 +720,13 @@ def free_value(rng, T, maxlen=2):
     if k == 'unk':
         raise ValueError('no value of unknown type')
     if k == 'var':
-        if has_kind(T[1], 'unk'):
+        if not can_have_value(T[1]):
             return []
         return [free_value(rng, T[1], maxlen) for _ in range(rng.choice([0, 1, 2, maxlen]))]
     if k == 'reg':
         return [free_value(rng, T[2], maxlen) for _ in range(T[1])]
     if k == 'opt':
-        if has_kind(T[1], 'unk') and T[1][0] == 'unk':
+        if not can_have_value(T[1]):
             return None
         return None if rng.random() < 0.25 else free_value(rng, T[1], maxlen)
     if k == 'rec':
@@ -1501,8 +1501,10 @@ def signature(c, status, msg):
     Every key needs the structural precondition of that defect (computed from the case text) AND its symptom."""
     f = c.meta.get('flags') or {}
     spec = c.meta.get('pyspec') or ('?',)
+    if c.args[0].startswith('proj'):
+        return None                      # ak.broadcast_arrays is outside the property's statement: never a finding
     if spec[0] != 'ok':
-        return None                      # all four open findings are wrong answers / refusals on inputs that should work
+        return None                      # the other open findings are wrong answers / refusals on inputs that should work
     # D6: a size-1 regular dimension is not repeated zero times outside the NumPy fast path
     if f.get('size01') and status == 'err' and 'cannot broadcast RegularArray of size' in msg:
         return 'regular-size1-to-size0'
@@ -1545,7 +1547,7 @@ def run(cases, tier, rng):
 
     verdicts, dist, samples, findings = {}, {}, [], []
     distinct = set()
-    per = {'corr:ufunc': True, 'corr:pyspec-vs-rocq-spec': True, 'impl:numpy-rectilinear': True}
+    per = {'corr:ufunc': True, 'corr:broadcast_arrays': True, 'corr:pyspec-vs-rocq-spec': True, 'impl:numpy-rectilinear': True}
     env_counts = {}
     numpy_counts = {}
     kinds_count = {}
@@ -1584,6 +1586,20 @@ def run(cases, tier, rng):
             verdicts['crash'] = verdicts.get('crash', 0) + 1
             add_finding('crash', c, 'ufunc %s: the implementation crashed (%s)' % (c.args[0], payload[:100]),
                         signature(c, st, msg), extra=['# stderr: ' + errs.get(c.id, '').replace('\n', '\n# ')])
+            continue
+        # ---- ak.broadcast_arrays: outside the property's statement; only the model-vs-implementation correspondence
+        if c.args[0].startswith('proj'):
+            if vk == 'agree':
+                verdicts['agree-corr-only'] = verdicts.get('agree-corr-only', 0) + 1
+            elif vk == 'modeldiff' or vk == 'bad':
+                verdicts[vk] = verdicts.get(vk, 0) + 1
+                per['corr:broadcast_arrays'] = False
+                findings.append(dict(kind='modeldiff', what='correspondence corr:broadcast_arrays broken (the model of '
+                                     'ak.broadcast_arrays differs from the implementation) [%s]' % str(v)[:500],
+                                     case_lines=[c.line(), '# impl: ' + res.get(c.id, '')[:1200], '# rocq verdict: ' + str(v)[:1200]],
+                                     signature=None, no_input=True, size=len(c.line())))
+            else:
+                verdicts['skip'] = verdicts.get('skip', 0) + 1
             continue
         # ---- Python transcription of the specification
         py_ok = None
